@@ -178,6 +178,10 @@ pub fn run(_args: &[String]) {
             }
         }
     }
+    if let Some(found) = large_values(&mut evals) {
+        println!("{{\"found\":{},\"evaluations\":{},\"distinct_nontrivial\":{}}}", found, evals, evals);
+        return;
+    }
     if let Some(found) = stacks(&mut evals) {
         println!("{{\"found\":{},\"evaluations\":{},\"distinct_nontrivial\":{}}}", found, evals, evals);
         return;
@@ -188,6 +192,41 @@ pub fn run(_args: &[String]) {
 /// Lookups through stacks of three read-only levels (and an optional write side): `get` returns the copy of the
 /// first level that holds one and, with a checker, succeeds exactly when all copies are equal; `touch` reports
 /// presence and marks the first copy only.
+/// The stock byte-equality checker on large values: two read-only copies of 128 KiB (and of 128 KiB + 1) that differ
+/// only in their last byte must be rejected, identical ones accepted.
+fn large_values(evals: &mut u64) -> Option<String> {
+    for size in [131072usize, 131073, 65536, 70000] {
+        for differ in [false, true] {
+            *evals += 1;
+            let root = tempfile::tempdir().unwrap();
+            let mut b = CacheBuilder::new();
+            let mut bytes = vec![7u8; size];
+            for lvl in 0..2 {
+                let d = root.path().join(format!("r{}", lvl));
+                std::fs::create_dir_all(&d).unwrap();
+                if lvl == 1 && differ {
+                    let n = bytes.len();
+                    bytes[n - 1] = 8;
+                }
+                std::fs::File::create(d.join("big")).unwrap().write_all(&bytes).unwrap();
+                b.plain_reader(&d);
+            }
+            b.byte_equality_checker();
+            let cache = b.build();
+            let r = cache.get(Key::new("big", 3, 4));
+            let problem = match (r.is_ok(), differ) {
+                (true, true) => Some("get succeeded although the two copies differ in their last byte"),
+                (false, false) => Some("get failed although the two copies are identical"),
+                _ => None,
+            };
+            if let Some(what) = problem {
+                return Some(format!("{{\"stack\":\"two plain readers + byte_equality_checker\",\"value_size\":{},\"copies_differ\":{},\"what\":\"{}\"}}", size, differ, what));
+            }
+        }
+    }
+    None
+}
+
 fn stacks(evals: &mut u64) -> Option<String> {
     let name = "thekey";
     let old = filetime::FileTime::from_unix_time(1_000_000_000, 0);
